@@ -1,4 +1,4 @@
-\* quick, safety: the dialer node at the code's grain, every interleaving, no clocks; the listener side is an adversary (2 moves)
+\* quick, safety: the dialer node at the code's grain, every interleaving, no clocks; one connection, the listener side is an adversary (3 moves)
 SPECIFICATION Spec
 CONSTANTS
   Links = {1}
@@ -17,9 +17,9 @@ CONSTANTS
   ShutNodes = {}
   CancelNodes = {}
   BReborn = 0
-  BAdv = 2
+  BAdv = 3
   BIdle = 1
-  BDial = 2
+  BDial = 1
   Wit = FALSE
 INVARIANTS
   TypeOK
